@@ -64,7 +64,20 @@ InnerCases ==
      Mk("innerpad", OneFn, BE16(Len(c) + 2) \o c \o <<9, 9>>, <<2>>, 0),
      Mk("inner", OneFn, BE16(10) \o SubSeq(c, 1, 10), <<>>, 0) >>
 
-ASSUME TLCSet(1, SingleCases \o ListCases \o BeyondEntryCases \o BeyondListCases \o CutCases \o InnerCases)
+(* many minimal entries (the count is extreme, every length field is 0) *)
+MinSct(k) == [ver |-> 0, id |-> Id32(k % 7), ts |-> Tss[(k % 4) + 1], ext |-> <<>>, sig |-> Sig(Algs[(k % 3) + 1], IF k % 11 = 0 THEN <<k % 256>> ELSE <<>>)]
+ManyCases == [q \in 1..4 |->
+  LET n == <<49, 50, 60, 1300>>[q]  l == [k \in 1..n |-> MinSct(k)] IN
+  [kind |-> "many", fn |-> ListFn, bytes |-> EncSctList(l), want |-> <<n>>, extra |-> 0]]
+(* signature length swept through the bands where a length could be mistaken for an algorithm pair *)
+SigLens == (0..40) \cup (250..262) \cup (506..520) \cup (1018..1032)
+SigPairs == <<<<4, 3>>, <<4, 1>>, <<2, 2>>, <<0, 2>>, <<1, 0>>>>
+SigSweep == LET ls == SetToSeq(SigLens) IN
+  Concat([p \in 1..Len(SigPairs) |->
+    [q \in 1..Len(ls) |->
+      LET s == [ver |-> 0, id |-> Id32(3), ts |-> Tss[3], ext |-> <<>>, sig |-> Sig(SigPairs[p], Fill(p, ls[q]))] IN
+      [kind |-> "sigsweep", fn |-> OneFn, bytes |-> EncSct(s) \o <<7>>, want |-> <<p, ls[q]>>, extra |-> 1]]])
+ASSUME TLCSet(1, ManyCases \o SigSweep \o SingleCases \o ListCases \o BeyondEntryCases \o BeyondListCases \o CutCases \o InnerCases)
 Cases == TLCGet(1)
 N == Len(Cases)
 
@@ -87,13 +100,21 @@ SingleEntryExact ==
 EntryBeyondList ==
   LET c == Cases[i] IN
   c.kind = "beyondentry" => (cres.k = "ok" => cres.v = WantList(c))
+ManyEntries ==
+  LET c == Cases[i] IN
+  c.kind = "many" => (cres.k = "ok" /\ Len(cres.v) = c.want[1] /\ cres.p = Len(c.bytes)
+                      /\ \A k \in 1..c.want[1] : cres.v[k] = MinSct(k))
+SigLengthSweep ==
+  LET c == Cases[i] IN
+  c.kind = "sigsweep" => (cres.k = "ok" /\ cres.p = Len(c.bytes) - 1 /\ Len(cres.v.sig.data) = c.want[2]
+                          /\ cres.v.sig.alg = Some([hash |-> SigPairs[c.want[1]][1], sign |-> SigPairs[c.want[1]][2]]))
 ListBeyondInput == Cases[i].kind \in {"beyondlist", "cut", "inner"} => res.k # "ok"
 (* the 32-byte log id is a range of exactly 32 bytes *)
 IdIs32 == (Cases[i].kind = "single" /\ res.k = "ok") => res.v.id.l = 32
 
 Pin ==
   LET c == Cases[i] IN
-  IF c.kind \in {"list", "single", "innerpad"} THEN "full"
+  IF c.kind \in {"list", "single", "innerpad", "many", "sigsweep"} THEN "full"
   ELSE IF c.kind = "beyondentry" THEN "prefix_or_err"
   ELSE "novalue"
 EmitCase ==
